@@ -321,6 +321,7 @@ def model_histories(ctx, rng, depth):
                     if key not in snaps:
                         fx = FX()
                         fx.tx = tx
+                        fx.wit_model = [[b"\x30" * 71, b"\x02" * 33], [b"\x33" * 64], []]     # as built by fresh(); this machine never edits witnesses
                         j, spent = Fixture.snapshot(fx)
                         snaps[key] = {"id": "mh%d" % len(snaps), "alg": alg, "idx": idx, "ht": ht, "kind": "p2wpkh", "redeem": [], "wscript": [],
                                       "sc": jscript(tx.tx_ins[2]._script_pubkey.commands), "ext": 0, "leafver": 0, "leafscript": [], "tx": j, "spent": spent}
